@@ -1,6 +1,69 @@
-(* C03 - statements only; proofs in the *Facts.v files. (grows) *)
-From Sbdf Require Import Va VaFacts PrimFacts ObjFacts.
-Theorem C03_value_array_wire : forall swp v, wf_va v -> byte_ok (vty v) ->
-  wspec (va_write swp v) (Ok tt) (enc_va swp v) /\ rspec (va_read swp None) (enc_va swp v) v.
-Proof. intros swp v W B. split; [exact (wspec_va swp v W)|exact (rspec_va swp v W B)]. Qed.
-Print Assumptions C03_value_array_wire.
+(* C03 — writer emits the canonical SBDF 1.0 byte stream.
+   enc_* are pure functions written from the format grammar (DESIGN.md section 1): section markers
+   DF 5B id, little-endian int32, int32-length-prefixed strings, packed arrays with a total
+   byte-size header and 7-bit-group element lengths, value arrays (encoding id, type id, payload),
+   column slices, table slices, end marker.  wspec says the writers emit exactly these bytes
+   (under any sufficient budget), so the output is a function of the logical content only.
+   Statements only; proofs in the *Facts.v files. *)
+From Sbdf Require Import File PrimFacts SevenBit ObjFacts VaFacts SliceFacts FileFacts.
+
+Theorem C03_header : wspec fh_write_cur (Ok tt) [223; 91; 1; 1; 0].
+Proof. exact wspec_fh. Qed.
+Print Assumptions C03_header.
+
+Theorem C03_int32_little_endian : forall v, wspec (write_int32 false v) (Ok tt) (le32 v).
+Proof. exact (wspec_int32 false). Qed.
+Print Assumptions C03_int32_little_endian.
+
+Theorem C03_string : forall swp s, wspec (write_string swp s) (Ok tt) (enc32 swp (zlen s) ++ s).
+Proof. exact wspec_string. Qed.
+Print Assumptions C03_string.
+
+(* packed string/binary arrays: count, total byte size, then (7-bit length, bytes) per element;
+   fixed-size arrays: count, then the elements *)
+Theorem C03_object_array : forall swp o, (is_arr (oty o) = true \/ 0 < usize (oty o)) ->
+  wspec (obj_write_arr swp o) (Ok tt)
+        (enc32 swp (ocount o) ++
+         if is_arr (oty o)
+         then enc32 swp (packed_byte_size (oelems o)) ++ concat (map (fun e => enc7 (zlen e) ++ e) (oelems o))
+         else concat (map (swapb swp) (oelems o))).
+Proof.
+  intros swp o H. eapply wspec_ext; [|now apply wspec_obj_write_arr].
+  unfold enc_obj_arr, enc_objects. destruct (is_arr (oty o)); reflexivity.
+Qed.
+Print Assumptions C03_object_array.
+
+Theorem C03_byte_size_header : forall swp l, (forall e, In e l -> zlen e < 2147483647) ->
+  zlen (concat (map (enc_elem swp true) l)) = packed_byte_size l.
+Proof. exact zlen_concat_elems_packed. Qed.
+Print Assumptions C03_byte_size_header.
+
+Theorem C03_value_array : forall swp v, wf_va v -> wspec (va_write swp v) (Ok tt) (enc_va swp v).
+Proof. exact wspec_va. Qed.
+Print Assumptions C03_value_array.
+
+(* maximal runs capped at 256, stored as length-1: what the run-length constructor stores *)
+Theorem C03_rle_runs : forall elems,
+  let '(rs, vs) := rle_encode elems in
+  rle_expand rs vs = elems /\ rle_total rs = zlen elems /\ length rs = length vs /\ runs_ok rs.
+Proof. exact rle_encode_spec. Qed.
+Print Assumptions C03_rle_runs.
+
+Theorem C03_column_slice : forall swp c, wf_cs c -> wspec (cs_write swp c) (Ok tt) (enc_cs swp c).
+Proof. exact wspec_cs. Qed.
+Print Assumptions C03_column_slice.
+
+Theorem C03_table_slice : forall swp cols, wf_ts cols ->
+  wspec (ts_write swp {| tscols := map Some cols; tsowned := false |}) (Ok tt) (enc_ts swp cols).
+Proof. exact wspec_ts. Qed.
+Print Assumptions C03_table_slice.
+
+Theorem C03_slices_and_end : forall swp sls ncols, slices_ok ncols sls ->
+  wspec (wfor (map (fun cols => {| tscols := map Some cols; tsowned := false |}) sls) (ts_write swp) ;;w ts_write_end)
+        (Ok tt) (enc_slices swp sls).
+Proof. exact wspec_slices. Qed.
+Print Assumptions C03_slices_and_end.
+
+(* MSB-first, zero-padded bit arrays *)
+Example C03_bits : pack_bits 9 [true; false; true; true; false; false; false; false; true] = [176; 128].
+Proof. reflexivity. Qed.
